@@ -138,7 +138,7 @@ fn vp_native_multipart_roundtrip_body() {
         let texts: Vec<(String, String)> = (0..ntext).map(|i| (format!("{} {}", names[(i + variant) % names.len()], i), format!("value {} of field — {}\r\n--", i, names[i % names.len()]))).collect();
         let fdata: Vec<Vec<u8>> = (0..nfiles).map(|i| data((i + variant) % 3, [0usize, 1, 100, 9000][(i + variant) % 4])).collect();
         let fnames: Vec<String> = (0..nfiles).map(|i| format!("file {} {}", names[(i + 2 * variant) % names.len()], i)).collect();
-        let specials = ["reports/2024/q1.csv", "upload/", "..", "C:\\dir\\file.txt", ".hidden", "no extension"];
+        let specials = ["reports/2024/q1.csv", "upload/", "..", "C:\\dir\\file.txt", ".hidden", "no extension", "", " "];   // (an empty file name is a file name)
         let ffile: Vec<String> = (0..nfiles).map(|i| if (i + variant) % 4 == 2 { specials[(i + variant + ntext) % specials.len()].to_string() } else { format!("{} {}.bin", names[(i + 1) % names.len()], i) }).collect();
         for (k, v) in &texts { b = b.with_text(k, v); want.push(Part { name: k.clone(), filename: None, ctype: None, data: v.clone().into_bytes() }); }
         for i in 0..nfiles {
